@@ -19,6 +19,10 @@ for _k, _v in (
     ("XLA_FLAGS", "--xla_cpu_multi_thread_eigen=false intra_op_parallelism_threads=1"),
     ("JAX_PLATFORMS", "cpu"),
     ("TQDM_DISABLE", "1"),
+    # aspire sets this at import (and the repo's conftest does); scipy only honours it if it is set BEFORE scipy is first
+    # imported, so without this line whether scipy.special dispatches through the array API depended on import order and
+    # on what a parent process had imported (observed: ulp-level differences in jax runs between processes)
+    ("SCIPY_ARRAY_API", "1"),
     ("MPLBACKEND", "Agg"),
 ):
     os.environ.setdefault(_k, _v)
@@ -32,3 +36,26 @@ GUARD = "ASPIRE_VERIF"  # reserved name of the (unused) hook guard
 import warnings as _w
 
 _w.filterwarnings("ignore")
+
+
+_PINNED = False
+
+
+def pin_to_one_cpu():
+    """Pin this simulator process to a single CPU before torch / jax create their thread pools.
+
+    XLA's CPU client sizes its intra-op pool from the schedulable CPUs; with several threads some reductions came out
+    different in the last bits from run to run (observed: ESS 9.960000289427702 vs ...711), which breaks "one seed is
+    one exactly repeatable execution".  One core per process makes every numeric library single-threaded for good and
+    also stops 16 workers from oversubscribing the box.  The check's parent process is never pinned (children inherit
+    the mask)."""
+    global _PINNED
+    if _PINNED or not hasattr(os, "sched_setaffinity"):
+        return
+    try:
+        cpus = sorted(os.sched_getaffinity(0))
+        if len(cpus) > 1:
+            os.sched_setaffinity(0, {cpus[os.getpid() % len(cpus)]})
+        _PINNED = True
+    except OSError:
+        pass
